@@ -202,10 +202,13 @@ func (s *Server) Do(ctx context.Context) error {
 	}
 
 	/* Serve clients and watch events. */
+	gone := make(chan struct{}) /* Closed when -one-shell's shell is gone. */
 	eg, ectx := ctxerrgroup.WithContext(ctx)
-	eg.GoContext(ectx, s.serveHTTP) /* Handle HTTP. */
-	eg.Go(func() error {            /* Process IOB events. */
-		s.watchIOBEvents(ectx, evCh)
+	eg.GoContext(ectx, func(ctx context.Context) error { /* Handle HTTP. */
+		return s.serveHTTP(ctx, gone)
+	})
+	eg.Go(func() error { /* Process IOB events. */
+		s.watchIOBEvents(ectx, evCh, gone)
 		return nil
 	})
 	return eg.Wait()
@@ -308,15 +311,18 @@ func (s *Server) printCallbackHelp() {
 
 // watchIOBEvents watches for events from the IO Broker and takes action.  Its
 // only job is to either send the reconnect message when the shell dies or to
-// kill the listener, if we have -one-shell.
+// kill the listener, if we have -one-shell.  In that case, gone will be closed
+// when the shell for which the listener was killed has disconnected.
 func (s *Server) watchIOBEvents(
 	ctx context.Context,
 	evCh <-chan iobroker.Event,
+	gone chan<- struct{},
 ) {
 	/* Watch for events. */
 	var (
-		ev iobroker.Event
-		ok bool
+		ev     iobroker.Event
+		ok     bool
+		closed bool /* True when we've closed the listener. */
 	)
 	for {
 		/* Grab the next event. */
@@ -340,18 +346,24 @@ func (s *Server) watchIOBEvents(
 				)
 				s.sl.Debug(LMOneShellClosingListener)
 				s.l.Close()
+				closed = true
 			}
 		case iobroker.EventTypeDisconnected:
 			/* Print the callback help when the shell dies. */
 			if !s.oneShell {
 				s.printCallbackHelp()
+			} else if closed && nil != gone {
+				/* The one shell has come and gone. */
+				close(gone)
+				gone = nil
 			}
 		}
 	}
 }
 
-// serveHTTP starts HTTP Service going.
-func (s *Server) serveHTTP(ctx context.Context) error {
+// serveHTTP starts HTTP Service going.  With -one-shell, when gone is closed
+// whatever connections are left are closed as well.
+func (s *Server) serveHTTP(ctx context.Context, gone <-chan struct{}) error {
 	/* Set up a server. */
 	hsvr := http.Server{
 		Handler:  s.abandonUnreadBodies(s.newMux()),
@@ -378,8 +390,19 @@ func (s *Server) serveHTTP(ctx context.Context) error {
 	case <-ctx.Done():
 	}
 
-	/* Shutdown the server. */
+	/* Shutdown the server.  This waits for our one shell, if we're only
+	after the one, but once it's gone there's nothing left worth waiting
+	for, and other clients could otherwise keep us waiting forever. */
+	sdone := make(chan struct{})
+	go func() {
+		select {
+		case <-gone:
+			hsvr.Close()
+		case <-sdone:
+		}
+	}()
 	serr := hsvr.Shutdown(ctx)
+	close(sdone)
 
 	/* Return the first non-nil error. */
 	return cmp.Or(err, serr)
